@@ -87,6 +87,8 @@ def solve_and_judge(case, which, in_situ=True):
         rec.count('models.judged.with_households_buying_in_another_regions_market')
     if getattr(b, 'currency_members_overwritten', 0):
         rec.count('models.judged.with_country_currency_member_overwritten_after_construction')
+    if case.get('build_opts', {}).get('declare_first') and any(c.get('cap') for z in spec['zones'] for c in z['countries'] if c['role'] != 'central'):
+        rec.count('models.judged.with_the_firm_declared_before_its_owners')
     if getattr(b, 'lists_mutated', False):
         rec.count('models.judged.with_getter_results_emptied_by_the_caller')
     if getattr(b, 'predeclared_lag', 0):
@@ -153,6 +155,8 @@ def gen_case(rng, idx, tier, emphasis=None):
                            'region_default_currency': rng.random() < 0.4,
                            # the model is run through the GUI's step list instead of main()
                            'run_via_steps': idx % 4 == 3,
+                           # the firm (and the markets) declared before households and capitalists in every country
+                           'declare_first': (['BUS', 'GOOD', 'LAB'] if idx % 16 == 14 else []),
                            'codes': forced_codes, 'order_seed': (rng.getrandbits(20) if (forced_codes and idx % 16 == 12) else None)}}
 
 
@@ -183,7 +187,8 @@ class C01(object):
                          'models.judged.with_holder_declaring_its_own_lagged_deposits',
                          'models.judged.with_households_buying_in_another_regions_market',
                          'retry_after_refusal.judged',
-                         'models.judged.with_issuer_code_containing_a_holders_code')
+                         'models.judged.with_issuer_code_containing_a_holders_code',
+                         'models.judged.with_the_firm_declared_before_its_owners')
     which = ('zone', 'ledger')
 
     def n_cases(self, tier):
